@@ -351,6 +351,15 @@ def run_case(case, ctx):
         ctx.cls("polylines", kind)
         ctx.sig = f"polylines|{case['sub']}"
         x, y = intersection(a[:, 0], a[:, 1], b[:, 0], b[:, 1])
+        # call history: the SAME coordinate arrays, changed in place between calls (a curve that is shifted / rescaled and
+        # intersected again) - every call is judged by the monitor against the arrays as they are at that call
+        x1, y1, x2, y2 = a[:, 0].copy(), a[:, 1].copy(), b[:, 0].copy(), b[:, 1].copy()
+        intersection(x1, y1, x2, y2)
+        for step in range(3):
+            y1 += float(rng.uniform(-0.6, 0.6))
+            x1 *= float(rng.uniform(0.8, 1.25))
+            intersection(x1, y1, x2, y2)
+        ctx.count("c17.intersection-after-in-place-change", 3)
         ctx.nontrivial = len(x) > 0
         ctx.sample = {"kind": kind, "n1": int(len(a)), "n2": int(len(b)), "crossings": int(len(x))}
         return
